@@ -80,6 +80,7 @@ CONF = {
         {"module": "MC_Device", "cfg": {"quick": "MC_quick.cfg", "thorough": "MC_quick.cfg"}, "timeout": 900},
         {"module": "MC_Device", "cfg": {"quick": None, "thorough": "MC_thorough_a.cfg"}, "timeout": 1800},
         {"module": "MC_Device", "cfg": {"quick": None, "thorough": "MC_thorough_c.cfg"}, "timeout": 1800},
+        {"module": "MC_Device", "cfg": {"quick": None, "thorough": "MC_thorough_b.cfg"}, "timeout": 2700},
     ],
     "gen": [
         {"module": "Gen_Device", "cfg": {"quick": "Gen_quick.cfg", "thorough": "Gen_thorough.cfg"}, "timeout": 1500},
